@@ -265,8 +265,45 @@ func (e *Engine) verifyFunc(key string) (x *Exec, err error) {
 			}
 		}
 	}()
+	x.checkRetAnchors()
 	x.run()
 	return x, nil
+}
+
+// checkRetAnchors: every `check @retN` / `witness … @retN` of the contract
+// must denote a return site of the function as it is now (after alignment with
+// the symbol snapshot); a clause whose site is gone would otherwise be dropped
+// silently.
+func (x *Exec) checkRetAnchors() {
+	if x.fc == nil || strings.Contains(x.key, "#") || x.fi == nil || x.fi.Decl == nil || x.fi.Decl.Body == nil {
+		return
+	}
+	var sites []token.Pos
+	ast.Inspect(x.fi.Decl.Body, func(n ast.Node) bool {
+		switch r := n.(type) {
+		case *ast.FuncLit:
+			return false
+		case *ast.ReturnStmt:
+			sites = append(sites, r.Pos())
+		}
+		return true
+	})
+	sites = append(sites, x.fi.Decl.Body.Rbrace)
+	have := map[string]bool{}
+	for _, p := range sites {
+		have[fmt.Sprintf("ret%d", x.retOrdinal(p))] = true
+	}
+	need := func(anchor, what string) {
+		if strings.HasPrefix(anchor, "ret") && !have[anchor] {
+			panic(engineError{fmt.Sprintf("anchor-mismatch: %s is anchored at @%s, but the function has no such return site any more", what, anchor)})
+		}
+	}
+	for _, c := range x.fc.Checks {
+		need(c.Anchor, "check ["+c.Cl.Label+"]")
+	}
+	for _, w := range x.fc.Witnesses {
+		need(w.Anchor, "witness "+witnessName(w.Name))
+	}
 }
 
 func (x *Exec) run() {
